@@ -17,8 +17,8 @@
    exactly these components.  [es5] is the dialect of the standard; Model.v
    defines otto's.  (The behavioural departures otto once had -- holes filled in
    result arrays, reduce over holes, reduceRight's string index, splice(),
-   reverse's order, toString's forwarded arguments, length read after the
-   IsCallable test -- were repaired in /repo and are not modelled any more.) *)
+   reverse's order of Put/Delete and of Get/HasProperty, toString's forwarded
+   arguments, length read after the IsCallable test -- were repaired in /repo and are not modelled any more.) *)
 From Coq Require Import ZArith Bool List Lia.
 From Otto Require Import Common.Corr Common.Double.
 Import ListNotations.
@@ -480,8 +480,7 @@ Record dialect := mkDia {
   dia_rel : val -> Z -> option Z;            (* relative start/end -> index in [0,len] *)
   dia_cnt : val -> Z -> option Z;            (* deleteCount -> [0,bound] *)
   dia_indexof : val -> Z -> option (option Z);
-  dia_lastindexof : val -> Z -> option (option Z);
-  dia_rev_has_first : bool   (* reverse tests HasProperty(lower), HasProperty(upper) before it Gets the values *)
+  dia_lastindexof : val -> Z -> option (option Z)
 }.
 
 Definition es5 : dialect :=
@@ -489,8 +488,7 @@ Definition es5 : dialect :=
         (fun v len => option_map (fun r => clamp_rel r len) (to_integer v))
         (fun v b => option_map (fun r => clamp_cnt r b) (to_integer v))
         (fun v len => option_map (fun r => clamp_indexof r len) (to_integer v))
-        (fun v len => option_map (fun r => clamp_lastindexof r len) (to_integer v))
-        false.
+        (fun v len => option_map (fun r => clamp_lastindexof r len) (to_integer v)).
 
 Section Methods.
 Variable D : dialect.
@@ -677,22 +675,14 @@ Definition m_reverse (args : list marg) : M rv :=
   n <- cnt (len / 2) ;;
   for_up n 0 (fun lower =>
     let upper := len - lower - 1 in
-    if dia_rev_has_first D then
-      le <- m_has (KI lower) ;;
-      ue <- m_has (KI upper) ;;
-      if le && ue then lv <- m_get (KI lower) ;; uv <- m_get (KI upper) ;; m_put (KI lower) uv ;;; m_put (KI upper) lv
-      else if ue then uv <- m_get (KI upper) ;; m_put (KI lower) uv ;;; m_del (KI upper)
-      else if le then lv <- m_get (KI lower) ;; m_del (KI lower) ;;; m_put (KI upper) lv
-      else ret tt
-    else
-      lv <- m_get (KI lower) ;;                (* 15.4.4.8 step 6.c - 6.f: both [[Get]]s, then both [[HasProperty]]s *)
-      uv <- m_get (KI upper) ;;
-      le <- m_has (KI lower) ;;
-      ue <- m_has (KI upper) ;;
-      if le && ue then m_put (KI lower) uv ;;; m_put (KI upper) lv
-      else if ue then m_put (KI lower) uv ;;; m_del (KI upper)
-      else if le then m_del (KI lower) ;;; m_put (KI upper) lv
-      else ret tt) ;;;
+    lv <- m_get (KI lower) ;;                (* 15.4.4.8 step 6.c - 6.f: both [[Get]]s, then both [[HasProperty]]s *)
+    uv <- m_get (KI upper) ;;
+    le <- m_has (KI lower) ;;
+    ue <- m_has (KI upper) ;;
+    if le && ue then m_put (KI lower) uv ;;; m_put (KI upper) lv
+    else if ue then m_put (KI lower) uv ;;; m_del (KI upper)
+    else if le then m_del (KI lower) ;;; m_put (KI upper) lv
+    else ret tt) ;;;
   ret RThis.
 
 (* move one element: Put(to, Get(from)) if from is present, else Delete(to) *)
